@@ -170,7 +170,7 @@ def rendered_operands(X, mnemonic, args):
                     ev.env[st.targets[0].id] = ev.ev(st.value)
                 except NotConst:
                     pass
-            if isinstance(st, ast.If) and any(isinstance(x, ast.Assign) and u(x.targets[0]) == 'args[0:2]' for x in st.body):
+            if isinstance(st, ast.If) and any(isinstance(x, ast.Assign) and u(x.targets[0]) == 'args[0:2]' for x in ast.walk(st)):
                 seen += 1
                 ev.exec_stmt(st, ev.env)
         except NotConst as e:
